@@ -7,6 +7,7 @@ import (
 	"crypto/x509/pkix"
 	"errors"
 	"fmt"
+	"math/big"
 	"net"
 	"net/netip"
 	"sync"
@@ -107,6 +108,9 @@ type c40Cert struct {
 	IA      addr.IA
 	HasIA   bool
 	Trusted bool
+	// Serial: leaf serial numbers are drawn from a tiny pool, so certificates of
+	// different ASes / issuers (serials are unique per CA only) collide often.
+	Serial int64
 }
 
 func (c c40Cert) x509() *x509.Certificate {
@@ -117,7 +121,9 @@ func (c c40Cert) x509() *x509.Certificate {
 	if c.HasIA {
 		n.Names = []pkix.AttributeTypeAndValue{{Type: cppki.OIDNameIA, Value: c.IA.String()}}
 	}
-	return &x509.Certificate{Subject: n}
+	return &x509.Certificate{Subject: n, SerialNumber: big.NewInt(c.Serial),
+		NotBefore: time.Now().Add(-24 * time.Hour), NotAfter: time.Now().Add(365 * 24 * time.Hour),
+		Raw: []byte(fmt.Sprintf("%s/%v/%v/%d", c.IA, c.HasIA, c.Trusted, c.Serial))}
 }
 
 type c40OtherAuth struct{}
@@ -333,9 +339,9 @@ func checkC40(r *mon.Run) {
 			if rng.IntN(2) == 0 {
 				certIA = []addr.IA{c.SrcIA, c.DstIA}[rng.IntN(2)]
 			}
-			c.Chain = []c40Cert{{IA: certIA, HasIA: rng.IntN(12) != 0, Trusted: rng.IntN(4) != 0}}
+			c.Chain = []c40Cert{{IA: certIA, HasIA: rng.IntN(12) != 0, Trusted: rng.IntN(4) != 0, Serial: int64(1 + rng.IntN(3))}}
 			if rng.IntN(2) == 0 { // issuing CA of another AS behind the leaf
-				c.Chain = append(c.Chain, c40Cert{IA: ias[rng.IntN(len(ias))], HasIA: true, Trusted: true})
+				c.Chain = append(c.Chain, c40Cert{IA: ias[rng.IntN(len(ias))], HasIA: true, Trusted: true, Serial: int64(1 + rng.IntN(3))})
 			}
 		case x < 6:
 			c.Auth = "tls-nocert"
@@ -347,7 +353,7 @@ func checkC40(r *mon.Run) {
 		if c.RPC == "Level1" && rng.IntN(3) != 0 {
 			c.Auth = "tls"
 			if c.Chain == nil {
-				c.Chain = []c40Cert{{IA: ias[3+rng.IntN(len(ias)-3)], HasIA: true, Trusted: true}}
+				c.Chain = []c40Cert{{IA: ias[3+rng.IntN(len(ias)-3)], HasIA: true, Trusted: true, Serial: int64(1 + rng.IntN(3))}}
 			}
 		}
 
